@@ -33,6 +33,8 @@ def run(ctx: Context) -> None:
     ctx.rule("C04d", "the native kernels branch on computed floating values only through exact tests: no comparison with a non-zero floating constant (absolute tolerance)")
     cxx.check_thresholds(ctx, "C04d")
     clause_d_python(ctx)
+    ctx.rule("C04e", "an exact zero test of a sum in the python kernels is applied to summands that cannot cancel (absolute values, squares, non-negative counts)")
+    clause_e_python(ctx)
     ctx.rule("C04c", "a helper that rescales its matrix argument in place and returns (matrix, factor) returns, on every path, the factor it applied on that path (1 when it applied none)")
     clause_c(ctx)
     ctx.assume("LP64 data model (int 32 bits, long/int64_t 64 bits)")
@@ -151,3 +153,68 @@ def clause_d_python(ctx: Context) -> None:
                                   norm(node).split("\n")[0][:100])
     ctx.require_floor("C04d python kernel functions scanned for absolute thresholds", n_fn, 20)
     ctx.count("C04d relational comparisons with a floating constant in the python kernels", n_cmp)
+
+
+def clause_e_python(ctx: Context) -> None:
+    """`sum(x) == 0` decides "x is all zero" only when the summands cannot cancel: absolute values, squares of absolute values, or the
+    non-negative integer counts of the kernels (occupation numbers, edge multiplicities).  A shortcut guarded by the vanishing *sum* of a
+    signed or complex vector (the loop vector of a loop hafnian) is taken for vectors whose entries cancel."""
+    from ..index import get_index, dotted
+    idx = get_index(ctx.repo)
+    COUNTS = ("occupation", "edges", "nvec", "multiplic", "particle", "photon", "rows", "cols")
+    n = 0
+    for mname, m in sorted(idx.modules.items()):
+        if not (mname.startswith("piquasso._math.hafnian") or mname == "piquasso._math.jax.hafnian"):
+            continue
+        for fn in m.functions.values():
+            defs = {}
+            for a in ast.walk(fn.node):
+                if isinstance(a, ast.Assign) and len(a.targets) == 1 and isinstance(a.targets[0], ast.Name):
+                    defs.setdefault(a.targets[0].id, []).append(a.value)
+
+            def is_sum(e):
+                return isinstance(e, ast.Call) and (dotted(e.func) or "").split(".")[-1] == "sum" and (e.args or isinstance(e.func, ast.Attribute))
+
+            def summand(e):
+                if e.args:
+                    return e.args[0]
+                return e.func.value  # x.sum()
+
+            def nonneg(e, depth=0) -> bool:
+                if isinstance(e, ast.Call) and (dotted(e.func) or "").split(".")[-1] in ("abs", "absolute", "fabs"):
+                    return True
+                if isinstance(e, ast.BinOp) and isinstance(e.op, ast.Pow) and isinstance(e.right, ast.Constant) and e.right.value == 2 and nonneg(e.left, depth):
+                    return True
+                if isinstance(e, ast.Name):
+                    if any(k in e.id.lower() for k in COUNTS):
+                        return True
+                    if e.id in defs and depth < 4:
+                        return all(nonneg(d_, depth + 1) for d_ in defs[e.id])
+                if isinstance(e, ast.Subscript):
+                    return nonneg(e.value, depth)
+                if isinstance(e, ast.Call) and (dotted(e.func) or "").split(".")[-1] in ("match_occupation_numbers", "copy", "array", "asarray") and e.args:
+                    return any(nonneg(a, depth) for a in e.args) or (dotted(e.func) or "").endswith("match_occupation_numbers")
+                return False
+
+            for c in ast.walk(fn.node):
+                if not (isinstance(c, ast.Compare) and len(c.ops) == 1 and isinstance(c.ops[0], (ast.Eq, ast.NotEq))):
+                    continue
+                sides = [c.left, c.comparators[0]]
+                zero = [s_ for s_ in sides if isinstance(s_, ast.Constant) and s_.value in (0, 0.0)]
+                if not zero:
+                    continue
+                other = sides[1] if sides[0] is zero[0] else sides[0]
+                src = other
+                if isinstance(other, ast.Name) and other.id in defs and len(defs[other.id]) == 1:
+                    src = defs[other.id][0]
+                if not is_sum(src):
+                    continue
+                n += 1
+                ok = nonneg(summand(src))
+                key = f"{fn.qualname}|{norm(c)}"
+                ctx.obligation("C04e", key, ok, f"{ctx.relpath(fn.file)}:{c.lineno}", summand=norm(summand(src))[:60])
+                if not ok:
+                    ctx.violation("C04e", key, fn.file, c.lineno,
+                                  f"`{norm(c)}` tests the vanishing of the sum of `{norm(summand(src))[:50]}`, whose entries can cancel: a vector with "
+                                  f"entries (+g, -g) takes the all-zero shortcut although it is not zero", norm(c))
+    ctx.require_floor("C04e exact zero tests of a sum in the python kernels", n, 2)
